@@ -147,6 +147,18 @@ pub fn replay_book(doc: &Value) -> Result<ReplayResult, String> {
         }
         Ok(())
     };
+    {
+        let st = StateCtx::new(&scen.cfg, &store);
+        let mut sink = Sink::default();
+        crate::oracles::on_initial(&st, &mut sink);
+        if scen.pre_migrate.is_some() {
+            crate::oracles::check_carried_over(&scen.seed, &st, &mut sink);
+        }
+        for x in sink.viols {
+            log.push(format!("  initial state !! {} {}: {}", x.prop, x.sig, x.detail));
+            seen.push((x.prop.to_string(), x.sig));
+        }
+    }
     log.push("path:".into());
     for v in &path {
         run_exec(&mut store, v, &mut log, &mut seen, true)?;
